@@ -125,7 +125,7 @@ class C12(Scenario):
             cfg["n_derived"] = rng.randint(2, 6)
             fam["mixed_space"] = 0.25
             fam["flat_form"] = 0.3
-            fam["mesh_sequence"] = 0.2
+            fam["mesh_sequence"] = 0.35
             cfg["mirror_geo"] = rng.random() < 0.5
         elif arm == "deep":
             cfg["depth"] = rng.choice([4, 5])
@@ -259,7 +259,7 @@ class C12(Scenario):
                     s_ = rng.choice(fslots)
                     lo = made_at[s_] + 1
                     msq = [(f_[0], P["meshes"][f_[2]]) for f_ in P["forms"] if f_[2] < len(P["meshes"]) and P["meshes"][f_[2]].get("msq") and f_[0] in made_at]
-                    if msq and rng.random() < 0.5:
+                    if msq and rng.random() < 0.7:
                         # preprocessing with coefficient splitting of a sub-form / the same form
                         # earlier than on the reference node (new coefficients are created inside)
                         s_, M_ = rng.choice(msq)
@@ -331,6 +331,22 @@ class C12(Scenario):
                         continue
                     o2 = [o[0], NOISE_BASE * ni + 600_000 + j] + list(o[2:])
                     inserts.append((rng.randint(lo, k_), 2 * 10**6 + j, {"k": "noise", "n": ni, "op": o2, "probe": 1}))
+        # targeted foreign objects: an object of the same kind with an explicit small id /
+        # count (what unpickling creates) right between two of the program's own creations
+        if arm != "demo":
+            for kind_, fn_ in (("Mesh", "ufl.Mesh"), ("Coefficient", "ufl.Coefficient"), ("Constant", "ufl.Constant")):
+                sites = [k_ for k_, i in enumerate(pidx) if units[i]["op"][0] == "call" and units[i]["op"][2] == fn_ and len(units[i]["op"]) == 4]
+                if len(sites) < 2:
+                    continue
+                for ni in range(1, len(nodes)):
+                    if rng.random() >= (0.3 if arm in ("multi-mesh", "digit-boundary", "probe", "restart") else 0.12):
+                        continue
+                    j = rng.randrange(len(sites) - 1)
+                    first = units[pidx[sites[j]]]["op"]
+                    out = NOISE_BASE * ni + 700_000 + len(inserts)
+                    key = "ufl_id" if kind_ == "Mesh" else "count"
+                    op = ["call", out, fn_, list(first[3]), {key: rng.choice([0, 0, 1, 2, 5])}]
+                    inserts.append((rng.randint(sites[j] + 1, sites[j + 1]), 3 * 10**6, {"k": "noise", "n": ni, "op": op}))
         # counter noise
         for ni in range(1, len(nodes)):
             for _ in range(rng.randint(0, 4)):
